@@ -95,7 +95,7 @@ def check_accept_guard(F, run, sname):
             run.check(rollback, "R2.1", dp, "commit:" + inst, F.loc(b, n),
                       "`%s` changes the solution without being on the true edge of the accept test `estimate <= tolerance` "
                       "(and is not the roll-back of a rejected start-up)" % pp(n)[:70], sample="%s: roll-back write `%s`" % (dp, pp(n)[:50]))
-    run.floor("R2.1", dp, "writes to state/time", n_w, {"RungeKutta": 2, "Adams": 4, "BDF": 4}[sname], F.loc(b))
+    run.floor("R2.1", dp, "writes to state/time", n_w, {"RungeKutta": 2, "Adams": 2, "BDF": 2}[sname], F.loc(b))
     # calls of the unchecked RK4 helper
     if sname != "RungeKutta":
         calls = [n for n in walk(b["body"], into_closures=False) if n.get("k") == "MCall" and n["name"] == "runge_kutta"]
@@ -158,7 +158,7 @@ def check_one_predicate(F, run, sname, b):
             else:
                 run.ok("R2.2", "redo-on-reject", "%s: Redo under estimate > tolerance" % dp)
     run.floor("R2.2", dp, "returns of a new point", n_ok, 1, F.loc(b))
-    run.floor("R2.2", dp, "Redo returns tied to the estimate", n_redo, {"RungeKutta": 1, "Adams": 2, "BDF": 2}[sname], F.loc(b))
+    run.floor("R2.2", dp, "Redo returns tied to the estimate", n_redo, {"RungeKutta": 1, "Adams": 1, "BDF": 1}[sname], F.loc(b))
 
 
 def is_tail(body, n):
